@@ -28,6 +28,12 @@ atE  == <<64, 69>>                                \* @E     (FE14 EnglishNA dire
 sx   == <<115, 95, 120>>                          \* s_x    (FE10 Spanish spelling of x)
 sfbin == <<115, 95, 102, 46, 98, 105, 110>>       \* s_f.bin
 kbin == <<107, 46, 98, 105, 110>>                 \* k.bin  (a DIRECTORY whose name matches *.bin)
+\* unusual but legal bytes in names: a backslash (an ordinary byte on Unix), a trailing dot, a 200-byte name, a name
+\* equal to a marker
+bsbin == <<98, 92, 99, 46, 98, 105, 110>>         \* b\c.bin
+kbsd == <<107, 92, 100>>                          \* k\d    (a directory)
+xdot == <<120, 46>>                               \* x.
+long == [k \in 1..200 |-> 97 + (k % 26)]          \* 200 bytes
 
 \* ------------------------------------------------------------------ literal-only LZ streams and the model's view of the decompressors
 RECURSIVE LitGroups(_)
@@ -82,7 +88,8 @@ F(p, b) == FileNode(p, b, ModelX(b))
 D(p) == DirNode(p)
 
 \* ------------------------------------------------------------------ initial layer configurations (L[1] lowest ... top last)
-C1 == << { D(<<m>>), F(<<m, fbin>>, B1), D(<<a>>), F(<<a, z>>, B2), F(<<ab>>, B3) } >>
+C1 == << { D(<<m>>), F(<<m, fbin>>, B1), D(<<a>>), F(<<a, z>>, B2), F(<<ab>>, B3),
+           F(<<m, bsbin>>, B2), D(<<kbsd>>), F(<<kbsd, xdot>>, B1), F(<<kbsd, long>>, B3) } >>
 C2 == << { D(<<m>>), F(<<m, fbin>>, B1), F(<<m, glz>>, Lit13(P3)), F(<<m, hcmp>>, Lit10(P3)) },      \* file shadows file
          { D(<<m>>), F(<<m, fbin>>, B2) } >>
 C3 == << { D(<<m>>), F(<<m, fbin>>, B1) },                                                             \* dir above file
@@ -93,7 +100,7 @@ C5 == << { D(<<d>>), D(<<d, e>>), F(<<d, e, fbin>>, B1), F(<<ab>>, B3) },       
          { D(<<d>>), D(<<d, e>>), D(<<a>>), F(<<a, z>>, B2), F(<<ab>>, B1) },
          { } >>
 C6 == << { D(<<m>>), D(<<m, atE>>), F(<<m, atE, fbin>>, B1), F(<<m, atE, xx>>, B2), F(<<m, sx>>, B3),   \* localised content
-           F(<<m, sfbin>>, B1), F(<<m, xx>>, B1) },
+           F(<<m, sfbin>>, B1), F(<<m, xx>>, B1), D(<<m, atE, kbsd>>), F(<<m, atE, kbsd, bsbin>>, B2) },
          { D(<<m>>), F(<<m, fbin>>, B2), D(<<m, kbin>>), F(<<m, kbin, fbin>>, B3), D(<<m, atE>>), F(<<m, atE, xx>>, B3) } >>
 C7 == << { D(<<m>>), F(<<m, glz>>, Lit13(P3)), F(<<m, hcmp>>, Lit10(P3)), F(<<icms>>, Lit10(PRun)),      \* streams, junk on top
            D(<<m, atE>>), F(<<m, atE, glz>>, Lit13(B2)), F(<<m, sfbin>>, B1) },
@@ -117,11 +124,12 @@ Classes == IF Tier = "quick" THEN (IF GenMode /\ MaxDepth = 0 THEN ClassesGenQui
 Pth(c) == [c |-> c, t |-> FALSE]
 PthT(c) == [c |-> c, t |-> TRUE]
 WPaths == { Pth(<<m, fbin>>), Pth(<<m, glz>>), Pth(<<m, hcmp>>), Pth(<<m, xx>>), Pth(<<a, z>>), Pth(<<ab>>),
-            Pth(<<d, e, fbin>>), Pth(<<m, atE, fbin>>), Pth(<<q>>), Pth(<<m, fbin, xx>>), Pth(<<icms>>), Pth(<<m>>) }
+            Pth(<<d, e, fbin>>), Pth(<<m, atE, fbin>>), Pth(<<q>>), Pth(<<m, fbin, xx>>), Pth(<<icms>>), Pth(<<m>>),
+            Pth(<<m, bsbin>>), Pth(<<kbsd, long>>) }
 CPaths == { Pth(<<m>>), PthT(<<d, e>>), Pth(<<q>>), Pth(<<m, fbin>>), Pth(<<m, atE>>), Pth(<<>>), Pth(<<q, xx>>) }
 QPaths == WPaths \cup { Pth(<<>>), PthT(<<m>>), Pth(<<d, e>>), Pth(<<m, atE>>), Pth(<<m, sx>>), Pth(<<a>>), Pth(<<m, atE, glz>>) }
 LDirs == { Pth(<<>>), Pth(<<m>>), PthT(<<m>>), Pth(<<a>>), Pth(<<d>>), PthT(<<d, e>>), Pth(<<m, atE>>), Pth(<<q>>),
-           Pth(<<m, fbin>>), Pth(<<ab>>) }
+           Pth(<<m, fbin>>), Pth(<<ab>>), Pth(<<kbsd>>) }
 TPaths == { Pth(<<m, fbin>>), Pth(<<m, glz>>), Pth(<<m, hcmp>>), Pth(<<q>>) }
 
 Ev(op, p, loc, data, g) == [op |-> op, p |-> p, loc |-> loc, data |-> data, glob |-> g]
